@@ -355,6 +355,21 @@ def pair_edits():
     pairs.append(('[point] pressure and loading of ONE point exchanged', lambda: mk_point(), lambda: mk_point(df=point_df(p=p2, l=l2))))
     two = lambda a, b: mk_point(df=point_df().drop(columns=['txt']).assign(enth=a, heat=b))     # noqa: E731
     pairs.append(('[point] contents of two supplementary columns exchanged', lambda: two(EX1, [9.0, 8.0, 7.0, 6.0, 5.0, 4.5]), lambda: two([9.0, 8.0, 7.0, 6.0, 5.0, 4.5], EX1)))
+    # supplementary columns of object dtype that MIX kinds (remarks next to numbers, numbers held as text, placeholders): one cell changed
+    mixed = {'text with one numeric-looking entry': ['ok', '2', 'leak', 'ok', 'ok', 'end'], 'numbers with text entries': [1.5, 'leak', 2.5, 3.5, 'n/a', 5.5],
+             'numeric-looking texts with a placeholder': ['1.5', '-', '2.5', '3.5', '4.5', '5.5'], 'numbers with a blank': [1.5, '', 2.5, 3.5, 4.5, 5.5],
+             'booleans and texts': [True, 'x', False, True, 'y', False]}
+    for cname, colv in mixed.items():
+        for i, cell in enumerate(colv):
+            if not isinstance(cell, str):
+                continue
+            for repl in ('other', '', None, '-', '7'):
+                if repl == cell or (cell == '' and repl is None):      # (a blank and a missing entry both say "no value": not a change of content)
+                    continue
+                c2 = list(colv)
+                c2[i] = repl
+                pairs.append((f'[point] supplementary column ({cname}) {colv}: entry {i} {cell!r} -> {repl!r}',
+                              lambda colv=colv: mk_point(df=point_df(e2=colv)), lambda c2=c2: mk_point(df=point_df(e2=c2))))
     e3 = list(EX1)
     e3[0], e3[1] = EX1[1], EX1[0]
     pairs.append(('[point] two cells of one supplementary column exchanged between rows', lambda: mk_point(), lambda: mk_point(df=point_df(e1=e3))))
